@@ -181,7 +181,19 @@ constraint:
 					col := st.column(c.IndexedColumns[0].Column)
 					intPK = col != nil && isRowid(true, col.Type, c.IndexedColumns[0].SortOrder)
 				}
-				if !st.setPK(st.toIndexColumns(c.IndexedColumns)) && !intPK {
+				// SQLite removes the redundant columns of a WITHOUT ROWID
+				// primary key (same column, same collation).
+				var pkCols []IndexColumn
+			pkcol:
+				for _, co := range st.toIndexColumns(c.IndexedColumns) {
+					for _, have := range pkCols {
+						if sameIndexColumns([]IndexColumn{have}, []IndexColumn{co}) {
+							continue pkcol
+						}
+					}
+					pkCols = append(pkCols, co)
+				}
+				if !st.setPK(pkCols) && !intPK {
 					// (see the column constraint case: an integer primary
 					// key's index is built last)
 					autoindex++
